@@ -1,7 +1,7 @@
 CONSTANTS
   MaxLen = 2
   MaxReentry = 2
-  Envs = {"ok", "retry503", "close", "aterm", "lterm", "atermA", "atermB", "atermC", "atermD"}
+  Envs = {"ok", "retry503", "close", "aterm", "lterm", "atermA", "atermB", "atermC", "atermD", "rterm", "rtermT"}
   Defects = {"LocalReplyRetried"}
 INIT Init
 NEXT Next
@@ -15,4 +15,6 @@ INVARIANTS
   ReplyWentThroughSendFilters
   TerminatedNeverReplies
   EndsWithReplyOrTermination
+  OnewayNeverReplies
+  DeclineHasNoEffect
 CHECK_DEADLOCK FALSE
